@@ -102,8 +102,8 @@ def post(recs, merged):
         rr = runrec[0]
         sch = rr["scheme"]
         cls = _scen_class(rr)
-        t = rr["t"]
-        desc = json.dumps({k: rr[k] for k in ("scheme", "n", "t", "faulty", "fmode", "keygen_faulty", "cut", "subset")})
+        t = rr["thr"]
+        desc = json.dumps({k: rr[k] for k in ("scheme", "n", "thr", "faulty", "fmode", "keygen_faulty", "cut", "subset")})
         # public key: equal at all honest parties that finished key generation, unchanged afterwards
         y_ref = None
         byph = {}
@@ -176,7 +176,7 @@ def post(recs, merged):
                     viol("C16/%s/invalid-signature-completed/%s" % (sch, cls),
                          "Sign returned true at an honest party but the output is not a valid %s signature on the "
                          "message under the public key (n=%d t=%d faulty=%s phase=%s)"
-                         % ("Schnorr" if sch == "nts" else "DSA", rr["n"], rr["t"], rr["faulty"], phase), c,
+                         % ("Schnorr" if sch == "nts" else "DSA", rr["n"], rr["thr"], rr["faulty"], phase), c,
                          dict(scenario=rr, phase=phase, party=r["party"], m=r["m"], a=r["a"], s=r["s"], y=r["y"],
                               group=dict(p=str(p), q=str(q), g=str(g)), library_verify=r["lv"],
                               all_outputs={str(x["party"]): [x["ret"], x["a"], x["s"]] for x in prs}), desc)
@@ -190,7 +190,7 @@ def post(recs, merged):
                 if rr["faulty"]:
                     bump("%s_signing_runs_judged_valid_with_faulty_signer" % sch)
                 if len(samples) < 3:
-                    samples.append(dict(scheme=sch, n=rr["n"], t=rr["t"], faulty=rr["faulty"], phase=phase,
+                    samples.append(dict(scheme=sch, n=rr["n"], t=rr["thr"], faulty=rr["faulty"], phase=phase,
                                         message=prs[0]["mname"], honest_outputs=len(judged), verdict="valid, identical"))
     obs["judged_samples"] = samples
     return viols
